@@ -426,3 +426,37 @@ Fixpoint classify_gap (h got : list st) (closed : bool) (lo hi ulo uhi : nat) (g
 
 Definition classify_stream (h got : list st) (closed : bool) (lo hi ulo uhi : nat) : option nat :=
   classify_gap h got closed lo hi ulo uhi 0 (S (hi - lo)).
+
+(* ------------------------------------------------------------------ *)
+(* OUTSIDE the property's hypothesis: a consumer that does not read for longer than the forwarder's
+   grace after its subscription was cancelled.  The repaired forwarder ([LFwdAbort]) then discards the
+   value in its hand - once per grace period, it is one goroutine - and goes on with the manager
+   channel (which keeps being fed until the cleanup goroutine has un-registered the subscriber).  The
+   stream the consumer finally reads is the expected one,  s0 :: changes,  with at most [k] values
+   missing (k = number of whole grace periods between the cancel and the close), all of them among the
+   values that had not yet reached the wrapped channel when the context was cancelled: with [c] a lower
+   bound of the number of changes at the cancel, the changes up to c - 2 cannot be affected (the last
+   two completed changes may still sit in the forwarder's hand and the manager channel).  Order is kept
+   and s0 - put into the wrapped channel by GetStateChan itself - is never lost.
+   The driver uses this classification only for a subscriber whose close was seen at least one grace
+   period after its cancel (measured by the harness): such a subscriber is counted as "slow after
+   cancel"; every other shortened stream remains a disagreement. *)
+Fixpoint fits_lossy (got exp : list st) (skip k : nat) : bool :=
+  match exp with
+  | [] => is_nil got
+  | y :: exp' =>
+    (match got with x :: got' => st_eqb x y && fits_lossy got' exp' (pred skip) k | [] => false end)
+    || (match skip, k with O, S k' => fits_lossy got exp' 0 k' | _, _ => false end)
+  end.
+
+Definition classify_slow (h got : list st) (lo hi ulo uhi k : nat) : bool :=
+  existsb (fun g =>
+    existsb (fun r =>
+      existsb (fun u => Nat.leb g u &&
+                        match got with
+                        | x :: got' => st_eqb x (state_at h r) && fits_lossy got' (segment h g u) (ulo - 2 - g) k
+                        | [] => false
+                        end)
+              (range ulo (S (uhi - ulo))))
+      (range g (S (hi - g))))
+    (range lo (S (hi - lo))).
